@@ -10,7 +10,7 @@ var propTable = map[string]*propSpec{
 	},
 	"C19": {
 		ID:          "C19",
-		Rules:       []string{"R-REGTABLE", "R-ARITY", "R-POS", "R-ALLOC", "R-SIZECAP", "R-METER"},
+		Rules:       []string{"R-REGTABLE", "R-ARITY", "R-POS", "R-ALLOC", "R-SIZECAP", "R-METER", "R-INDEX"},
 		Scope:       []string{"lib/stringlib/", "lib/tablelib/", "luastrings/"},
 		Explanation: "Decides only the 'never crashes, never runs away' corners of the string and table library functions, restricted to findings located in lib/stringlib, lib/tablelib and luastrings (the same rules run unrestricted under C04, C05 and C06): every argument read is within the declared arity or guarded (R-ARITY); every position normalised by StringNormPos is proved in range before it indexes or slices the subject — negative, zero and beyond-the-end positions, mininteger and maxinteger included (R-POS); sizes computed from counts (string.rep with separator, table functions) are tested for a wrapped negative result and compared with a bound (R-ALLOC sign, R-SIZECAP); every loop of these functions is metered, bounded by a held length, or table-listed with its bound (R-METER), so extreme ranges cannot spin unmetered.",
 		NotDecided:  "what the functions compute: sub, byte, char, rep, reverse, upper, lower, len, plain find, insert, remove, move, concat, unpack, pack and sort are laws about results for every argument tuple (position normalisation arithmetic, which elements move where, sort being a permutation) and are value-level. Known value-level defects seen while reading (plain find offsets, string.rep with a negative count) are listed in DESIGN.md and are not findings of this check.",
@@ -78,12 +78,12 @@ var propTable = map[string]*propSpec{
 	},
 	"C04": {
 		ID:    "C04",
-		Rules: []string{"R-REGTABLE", "R-ARITY", "R-POS", "R-DIVZERO", "R-PANIC", "R-NARROW", "R-RECURSION", "R-ALLOC", "R-SIZECAP", "R-ENCBUF"},
+		Rules: []string{"R-REGTABLE", "R-ARITY", "R-POS", "R-DIVZERO", "R-PANIC", "R-NARROW", "R-RECURSION", "R-ALLOC", "R-SIZECAP", "R-ENCBUF", "R-INDEX"},
 		Explanation: "Decides structural necessary conditions of 'no Lua source or program can crash the embedding Go process', each of which flags a construct that is a Go panic or a fatal error for some input: " +
 			"(R-ARITY) no registered Go function reads an argument slot beyond its declared arity without a guard; (R-POS) every normalised string position is proved in range before it indexes/slices the subject or is handed to the matcher/unpacker; " +
 			"(R-DIVZERO) every integer division has a divisor excluded from zero on every path; (R-PANIC) every explicit panic is below a recover that keeps its type on every call chain from the API, or is a table-listed internal invariant; " +
 			"(R-NARROW) every integer narrowing in the code generator is range-checked (implementation limits become compile errors, not wrapped encodings); (R-RECURSION) every call-graph cycle reachable from the API passes a structurally recognised depth guard or is table-listed with its bound; " +
-			"(R-ALLOC) every computed-size allocation is bounded by memory held, charged first, and — for lengths decoded from input — compared with the input left; a size the program chooses, or computes with + * <<, is proved non-negative on every path to the allocation (through callers and closure captures), since make/Grow/Repeat panic on a negative count; (R-SIZECAP) and it is compared with a constant or a held length on every path, because a charge bounds nothing in a context without a memory limit; (R-ENCBUF) callers of the UTF-8 encoder, which writes without checking, give it room for the longest (6-byte) encoding.",
+			"(R-ALLOC) every computed-size allocation is bounded by memory held, charged first, and — for lengths decoded from input — compared with the input left; a size the program chooses, or computes with + * <<, is proved non-negative on every path to the allocation (through callers and closure captures), since make/Grow/Repeat panic on a negative count; (R-SIZECAP) and it is compared with a constant or a held length on every path, because a charge bounds nothing in a context without a memory limit; (R-ENCBUF) callers of the UTF-8 encoder, which writes without checking, give it room for the longest (6-byte) encoding; (R-INDEX) when a library function compares an index with a length somewhere, no use of that index can be reached around all of those comparisons.",
 		NotDecided: "absence of every Go run-time error (nil dereference, arbitrary index expressions, map writes): Go's type system does not give that and a general bounds prover is out of reach; what the VM does with a hand-forged binary chunk that decodes successfully (there is no bytecode verifier in the repository); out-of-memory caused by a legitimately huge program-chosen size in a context without limits.",
 		Assumptions: []string{
 			"VTA+CHA call graph over-approximates calls; callbacks from standard-library frames are followed only when the entering module function can have supplied the callee (it converts a value of that type to an interface, references the function, or forwards interface/function parameters)",
